@@ -176,10 +176,20 @@ def run_check(prop, tier, seed, t0, a):
                 p = write_replay(prop, ident, payload)
                 violations.append((ident, p, ''))
             elif r['tag'] == 'property' and in_lock:
-                payload['note'] = 'obligation was discharged on the pinned tree and now fails; the counter-model did ' \
-                                  'not replay on the real function (or no replay builder)'
-                p = write_replay(prop, ident, payload)
-                violations.append((ident, p, ' no-failing-input-found'))
+                domv = (out.get('domain') or {}).get('first') or []
+                if domv:
+                    # no replayable counter-model, but the bounded domain of the same function has a real input on
+                    # which the executable form of the contract fails: that input is the replay
+                    payload['note'] = 'obligation was discharged on the pinned tree and now fails; failing input taken ' \
+                                      'from the bounded domain of the function (executable contract on the real code)'
+                    payload['replayed'] = domv[:1]
+                    p = write_replay(prop, ident, payload)
+                    violations.append((ident, p, ''))
+                else:
+                    payload['note'] = 'obligation was discharged on the pinned tree and now fails; the counter-model did ' \
+                                      'not replay on the real function (or no replay builder)'
+                    p = write_replay(prop, ident, payload)
+                    violations.append((ident, p, ' no-failing-input-found'))
             else:
                 undecided.append(f'{ident}: failed ({r["tag"]}, in_lock={in_lock}) without real failing input: {r["detail"]}')
         if out.get('domain_error'):
